@@ -172,6 +172,9 @@ def run(ctx: Ctx, env):
                       f"field annotation `{f.annotation}` holds nodes in a container the generic traversals do not look into "
                       "(only node, Optional[node], List[node] are traversed)", f"{am.rel}:{f.lineno}")
     ctx.floor("node classes", n_cls, 40)
+    from .common import check_node_construction
+    check_node_construction(ctx, env, "R5.constructed-as-declared", "trees that differ in the collapsed position compare equal, and "
+                            "a transformer that rebuilds the node gets a different node back")
 
     # ---- R2 / R3 generic traversals ----------------------------------------------------------------------------
     check_generic_traversal(ctx, env, VISITOR, False, "R2.visitor-traverses")
